@@ -660,6 +660,18 @@ def mutable_paths_events(o, prefix='', depth=0):
             elif isinstance(v, (dict, set)):
                 out.append(('.'.join(map(str, path + [f.name])) + ':clear',
                             lambda root, path=tuple(path + [f.name]): resolve(root, path).clear()))
+                if isinstance(v, set):
+                    # a member to add: taken from the declared member type when the set is empty
+                    mt = getattr(getattr(f.validator, 'member_validator', None), 'type', None)
+                    cands = list(v)[:1]
+                    if isinstance(mt, type) and issubclass(mt, __import__('enum').Enum):
+                        cands = [m for m in mt if m not in v][:2] or cands
+                    for k, m in enumerate(cands):
+                        out.append(('.'.join(map(str, path + [f.name])) + ':add%d' % k,
+                                    lambda root, path=tuple(path + [f.name]), m=m: resolve(root, path).add(m)))
+                else:
+                    out.append(('.'.join(map(str, path + [f.name])) + ':setitem',
+                                lambda root, path=tuple(path + [f.name]): resolve(root, path).__setitem__('x-verif', 'v')))
             elif objects.is_lib_object(v) and depth < 2:
                 walk(v, path + [f.name], depth + 1)
             elif isinstance(v, bool) and path:
